@@ -109,6 +109,14 @@ def classify(func):
                 nm = node.func.attr
                 if nm in MUTATING_CALLS or (nm.endswith("_") and not nm.startswith("_")):
                     self_mut.append(node.lineno)
+    # a call on `self` whose value is discarded, after the working copy was taken under another name, can only be there
+    # for its effect on `self` (seeded C03/m2: `self.ensure_bonds_exist()` instead of `tn.ensure_bonds_exist()`)
+    if idiom_var is not None and idiom_var != "self":
+        for node in ast.walk(fn):
+            if (isinstance(node, ast.Expr) and isinstance(node.value, ast.Call) and isinstance(node.value.func, ast.Attribute)
+                    and isinstance(node.value.func.value, ast.Name) and node.value.func.value.id == "self"
+                    and node.lineno > idiom_line):
+                self_mut.append(node.lineno)
     # in-place array writes anywhere
     for node in ast.walk(fn):
         if isinstance(node, (ast.Assign, ast.AugAssign)):
@@ -167,7 +175,17 @@ def make_receivers(seed):
     R["MPO"] = lambda: qtn.MPO_rand_herm(4, 2, seed=int(rng.integers(1 << 30)))
     R["PEPS"] = lambda: qtn.PEPS.rand(2, 2, 2, seed=int(rng.integers(1 << 30)))
     R["TN2D"] = lambda: qtn.TN2D_rand(3, 3, 2, seed=int(rng.integers(1 << 30)))
+    R["PEPS3D"] = lambda: qtn.PEPS3D.rand(2, 2, 2, 2, seed=int(rng.integers(1 << 30)))
+    R["ISO"] = lambda: qtn.IsoTensor(ints(rng, (2, 3, 2)), ("a", "b", "c"), tags=["T", "X"], left_inds=("a",))
     R["TN3D"] = lambda: qtn.TN3D_rand(2, 2, 2, 2, seed=int(rng.integers(1 << 30)))
+    def mps_nobond():
+        # product-state MPS whose size-1 dummy bonds were squeezed away: neighbouring sites share no bond
+        p = qtn.MPS_computational_state("0110", dtype="complex128")
+        p.squeeze_()
+        for t in p:
+            t.modify(data=t.data * float(rng.integers(1, 4)))
+        return p
+    R["MPS_NOBOND"] = mps_nobond
     edges = [(0, 1), (1, 2), (2, 0), (2, 3)]
     R["GENV"] = lambda: qtn.TN_from_edges_rand(edges, D=2, phys_dim=2, seed=int(rng.integers(1 << 30)))
     return R, rng
@@ -202,14 +220,16 @@ def recipes():
     add("reindex", ["T", "TN", "MPS"], lambda r, x: (({"a": "z"},), {}) if not hasattr(x, "site_ind") else (({x.site_ind(0): "z"},), {}))
     add("retag", ["T", "TN"], lambda r, x: (({"X": "W"},), {}))
     add("squeeze", ["T", "TN"], lambda r, x: ((), {}))
-    add("sum_reduce", ["T", "TN"], lambda r, x: (("c",), {}))
-    add("vector_reduce", ["T", "TN"], lambda r, x: (("c", np.array([1.0, -2.0])), {}))
+    add("sum_reduce", ["T"], lambda r, x: (("c",), {}))
+    add("vector_reduce", ["T"], lambda r, x: (("c", np.array([1.0, -2.0])), {}))
+    add("sum_reduce", ["TN"], lambda r, x: (("f",), {}))
+    add("vector_reduce", ["TN"], lambda r, x: (("f", np.array([1.0, -2.0])), {}))
     add("transpose", ["T"], lambda r, x: (("c", "a", "b"), {}))
     add("transpose_like", ["T"], lambda r, x: ((qtn.Tensor(np.zeros((2, 2, 3)), ("c", "a", "b")),), {}))
     add("collapse_repeated", ["T"], lambda r, x: ((), {}))
     add("gate", ["T"], lambda r, x: ((X, "a"), {}))
     add("isometrize", ["T"], lambda r, x: ((["a"],), {"method": "qr"}))
-    add("symmetrize", ["T"], lambda r, x: ((("a", "c"),), {}))
+    add("symmetrize", ["T"], lambda r, x: (("a", "c"), {}))
     add("direct_product", ["T"], lambda r, x: ((qtn.Tensor(np.ones((2, 3, 2)), ("a", "b", "c")),), {"sum_inds": ("a",)}))
     # ---- TensorNetwork
     add("multiply", ["TN"], lambda r, x: ((3.0,), {}))
@@ -259,7 +279,14 @@ def recipes():
     add("flatten", ["TN2D"], lambda r, x: ((), {}))
     add("compress_all", ["MPS"], lambda r, x: ((), {"max_bond": 2}))
     add("expand_bond_dimension", ["MPS"], lambda r, x: ((5,), {"rand_strength": 0.0, "inplace": False}))
+    add("expand_bond_dimension", ["MPS_NOBOND"], lambda r, x: ((3,), {"rand_strength": 0.0, "create_bond": True, "inplace": False}))
+    add("expand_bond_dimension", ["MPS_NOBOND"], lambda r, x: ((3,), {"rand_strength": 0.0, "create_bond": False, "inplace": False}))
     add("fill_empty_sites", ["MPO"], lambda r, x: ((), {}))
+    add("flip", ["MPS"], lambda r, x: ((), {}))
+    add("expand_bond_dimension", ["MPS"], lambda r, x: ((5,), {"rand_strength": 0.0, "bra": x.H, "inplace": False}))
+    add("expand_bond_dimension", ["PEPS"], lambda r, x: ((3,), {"rand_strength": 0.0, "bra": x.H, "inplace": False}))
+    add("reindex_sites", ["PEPS3D"], lambda r, x: (("q{},{},{}",), {}))
+    add("fuse", ["ISO"], lambda r, x: (({"ab": ("a", "b")},), {}))
     # ---- 2D / 3D / gen
     add("add_PEPS", ["PEPS"], lambda r, x: ((x.copy(),), {}))
     add("gate", ["PEPS"], lambda r, x: ((X, (0, 1)), {}))
@@ -272,8 +299,14 @@ def recipes():
     add("contract_boundary", ["TN3D"], lambda r, x: ((), {"max_bond": 8}))
     add("gate", ["GENV"], lambda r, x: ((X, 2), {}))
     add("gate_simple", ["GENV"], lambda r, x: ((CN, (0, 1)), {"gauges": {}}))
-    add("retag_all", ["TN", "GENV"], lambda r, x: ((lambda t: "z" + str(t),), {}))
-    add("align", ["GENV"], lambda r, x: ((), {}))
+    add("retag_all", ["GENV"], lambda r, x: (("Z{}",), {}))
+    add("align", ["GENV", "MPS", "MPO", "PEPS"], lambda r, x: ((), {}))
+    # explicit outer ids different from the ones the receiver carries (seeded C03/m3 only shows then)
+    add("align", ["MPS"], lambda r, x: ((qtn.MPO_rand_herm(4, 2, seed=int(r.integers(1 << 30))),), {"ind_ids": ["u{}", "v{}"]}))
+    add("align", ["MPS"], lambda r, x: ((qtn.MPO_rand_herm(4, 2, seed=int(r.integers(1 << 30))), x.H), {"ind_ids": ["u{}", "v{}", "w{}"]}))
+    add("align", ["MPO"], lambda r, x: ((qtn.MPS_rand_state(4, 2, seed=int(r.integers(1 << 30))),), {"ind_ids": ["u{}", "v{}"]}))
+    add("align", ["GENV"], lambda r, x: ((x.H,), {"ind_ids": ["u{}", "v{}"]}))
+    add("align", ["PEPS"], lambda r, x: ((x.H,), {"ind_ids": ["u{},{}", "v{},{}"]}))
     add("reindex_all", ["GENV"], lambda r, x: (("z{}",), {}))
     return S
 
@@ -313,7 +346,7 @@ def canon(r):
         else:
             dense = tm.np_dense([(t.inds, np.asarray(t.data)) for t in r.tensors], outer, float(np.real(r.exponent))).astype(complex)
         return (type(r).__name__, outer, dense, tuple(sorted(map(str, r.tags))))
-    if isinstance(r, tuple):
+    if isinstance(r, (tuple, list)):
         return tuple(canon(v) for v in r)
     if isinstance(r, (int, float, complex, np.number, np.ndarray)):
         return ("value", np.asarray(r).astype(complex))
@@ -406,6 +439,38 @@ def behaviour(ctx):
     ctx.extra["pairs_without_recipe"] = sorted(nospec)
 
 
+def tn_like(v, out=None):
+    """Tensor / TensorNetwork objects reachable in (nested) arguments or results"""
+    import quimb.tensor as qtn
+
+    out = [] if out is None else out
+    if isinstance(v, (qtn.Tensor, qtn.TensorNetwork)):
+        out.append(v)
+    elif isinstance(v, (tuple, list)):
+        for u in v:
+            tn_like(u, out)
+    elif isinstance(v, dict):
+        for u in v.values():
+            tn_like(u, out)
+    return out
+
+
+def tensor_ids(v):
+    import quimb.tensor as qtn
+
+    ids = set()
+    for o in tn_like(v):
+        if isinstance(o, qtn.Tensor):
+            ids.add(id(o))
+        else:
+            ids.add(id(o))
+            ids.update(id(t) for t in o.tensor_map.values())
+    return ids
+
+
+OUT_PARAMS = {"expand_bond_dimension": {"bra"}, "gate_simple": {"gauges"}}
+
+
 def one_case(ctx, owner, name, kind, x, args, kw, rng):
     desc = {"pair": f"{owner}.{name}", "receiver": kind, "args": repr(args)[:120], "kwargs": repr(kw)[:80]}
     import copy as _copy
@@ -416,15 +481,23 @@ def one_case(ctx, owner, name, kind, x, args, kw, rng):
     share = x.copy()  # shares arrays with x
     fp_x, fp_share = fingerprint(x), fingerprint(share)
     kw_plain = dict(kw)
+    # documented out-parameters (mirrored / updated in place by design) are not part of the non-mutation claim
+    arg_objs = tn_like((args, {k: v for k, v in kw.items() if k not in OUT_PARAMS.get(name, ())}))
+    fp_args = [fingerprint(a) for a in arg_objs]
+    ctx.bump("argument_objects_fingerprinted", len(arg_objs))
     try:
         r_plain = plain(*args, **kw_plain)
     except Exception as e:
         ctx.bump("recipe_rejected")
+        ctx.extra.setdefault("recipes_rejected", {})[f"{owner}.{name}:{kind}:{repr(kw)[:50]}"] = f"{type(e).__name__}: {str(e)[:100]}"
         return
     ok_mut = fingerprint(x) == fp_x and fingerprint(share) == fp_share
     if not ok_mut:
         ctx.violation(f"mutates:{owner}.{name}", f"plain spelling {owner}.{name} changed its receiver (or arrays shared with a copy)",
                       desc)
+    if [fingerprint(a) for a in arg_objs] != fp_args:
+        ctx.violation(f"mutates_argument:{owner}.{name}", f"plain spelling {owner}.{name} changed a tensor / network passed as an argument", desc)
+    aliased = bool(tensor_ids(r_plain) & (tensor_ids(x) | tensor_ids(arg_objs)))
     # in-place spelling on a copy
     y = x.copy()
     fp_before = fingerprint(y)
@@ -439,11 +512,18 @@ def one_case(ctx, owner, name, kind, x, args, kw, rng):
     changed = fingerprint(y) != fp_before
     ctx.count((owner, name, kind, repr(args)[:60], repr(kw)[:40]), changed)
     ctx.bump("inplace_changes_receiver" if changed else "inplace_is_noop_here")
+    if aliased and changed:
+        # the plain result is (or holds) the very Tensor objects of the receiver / an argument although the operation is
+        # not a no-op here: any later in-place edit of the result edits the input
+        ctx.violation(f"aliases:{owner}.{name}", f"plain spelling {owner}.{name} returns tensor objects shared with its receiver/arguments "
+                      "(a later in-place edit of the result changes the input)", desc)
     res_in = y if (r_in is None or r_in is y) else r_in
     labels = name not in FRESH_LABEL_METHODS
     import quimb.tensor as qtn
 
-    if isinstance(r_plain, (qtn.Tensor, qtn.TensorNetwork)) and isinstance(res_in, (qtn.Tensor, qtn.TensorNetwork)):
+    seq_ok = (isinstance(r_plain, (tuple, list)) and isinstance(res_in, (tuple, list)) and len(r_plain) == len(res_in)
+              and tn_like(r_plain) and len(tn_like(r_plain)) == len(r_plain) and len(tn_like(res_in)) == len(res_in))
+    if seq_ok or (isinstance(r_plain, (qtn.Tensor, qtn.TensorNetwork)) and isinstance(res_in, (qtn.Tensor, qtn.TensorNetwork))):
         try:
             same = canon_eq(canon(r_plain), canon(res_in), labels=labels)
         except Exception as e:
@@ -470,24 +550,95 @@ def one_case(ctx, owner, name, kind, x, args, kw, rng):
 
 
 def binary_ops(ctx):
-    """+,-,*,/ and @ on tensors align by label, whatever the stored axis order."""
+    """+,-,*,/,** and @ on tensors align and broadcast by label, whatever the stored axis order, and leave BOTH operands
+    (and a network holding one of them) untouched."""
     import quimb.tensor as qtn
 
     rng = np.random.default_rng(ctx.seed + 3)
+    OPS = [("add", lambda u, v: u + v), ("sub", lambda u, v: u - v), ("mul", lambda u, v: u * v),
+           ("div", lambda u, v: u / v), ("pow", lambda u, v: u ** v), ("matmul", lambda u, v: u @ v)]
     for _ in range(ctx.n(40, 400)):
         a = qtn.Tensor(ints(rng, (2, 3, 2), True), ("a", "b", "c"))
         b = qtn.Tensor(ints(rng, (2, 3, 2), True) + 5, ("a", "b", "c"))
         pa, pb = list(rng.permutation(3)), list(rng.permutation(3))
         a2 = a.transpose(*[a.inds[p] for p in pa])
         b2 = b.transpose(*[b.inds[p] for p in pb])
-        for nm, op in [("add", lambda u, v: u + v), ("sub", lambda u, v: u - v), ("mul", lambda u, v: u * v),
-                       ("div", lambda u, v: u / v), ("matmul", lambda u, v: u @ v)]:
+        for nm, op in OPS:
+            if nm == "pow":
+                continue
             ctx.count(("binop", nm, tuple(pa), tuple(pb)), True)
             r1, r2 = op(a, b), op(a2, b2)
             c1, c2 = canon(r1), canon(r2)
             if not canon_eq(c1, c2):
                 ctx.violation(f"axis_order:binop:{nm}", f"Tensor {nm} depends on stored axis order",
                               {"op": nm, "perm_a": [int(p) for p in pa], "perm_b": [int(p) for p in pb]})
+    # broadcasting: operands over different label sets; the right operand may live in a network
+    sizes = {"a": 2, "b": 3, "c": 2, "d": 2}
+    labels = sorted(sizes)
+    for it in range(ctx.n(60, 600)):
+        while True:
+            sa = [l for l in labels if rng.random() < 0.6]
+            sb = [l for l in labels if rng.random() < 0.6]
+            if sa and sb:
+                break
+        sa = [sa[p] for p in rng.permutation(len(sa))]
+        sb = [sb[p] for p in rng.permutation(len(sb))]
+        arr_a = ints(rng, tuple(sizes[l] for l in sa)) + 5
+        arr_b = rng.integers(1, 4, size=tuple(sizes[l] for l in sb)).astype(float)
+        arr_z = ints(rng, (2, 2))
+        in_net = bool(rng.integers(2))
+        cls = ("same" if set(sa) == set(sb) else "rhs_extra" if set(sa) < set(sb) else "lhs_extra" if set(sb) < set(sa) else "both_extra")
+        for nm, op in OPS:
+            ctx.count(("binop_bc", nm, tuple(sa), tuple(sb), in_net), cls != "same")
+            # fresh operands per operator (a mutated operand must not leak into the next case)
+            a = qtn.Tensor(arr_a.copy(), sa, tags=["A"])
+            b0 = qtn.Tensor(arr_b.copy(), sb, tags=["B"])
+            if in_net:
+                net = qtn.TensorNetwork([b0, qtn.Tensor(arr_z.copy(), ("d", "z"), tags=["Z"])], virtual=True)
+                b = net["B"]
+            else:
+                net, b = None, b0
+            ctx.bump("binop_broadcast_" + cls)
+            fa, fb = fingerprint(a), fingerprint(b)
+            fnet = fingerprint(net) if net is not None else None
+            imap = None if net is None else {k: tuple(sorted(v)) for k, v in net.ind_map.items()}
+            desc = {"op": nm, "lhs_inds": list(sa), "rhs_inds": list(sb), "rhs_held_by_network": in_net, "class": cls}
+            # value against a numpy reference over the union of the labels
+            union = sorted(set(sa) | set(sb))
+            def lift(t_inds, arr):
+                arr = np.asarray(arr)
+                order = [l for l in union if l in t_inds]
+                arr = np.transpose(arr, [list(t_inds).index(l) for l in order])
+                return arr.reshape([sizes[l] if l in t_inds else 1 for l in union])
+            A, B = lift(sa, np.array(a.data)), lift(sb, np.array(b.data))
+            try:
+                r = op(a, b)
+            except Exception as e:
+                ctx.violation(f"binop_raises:{nm}", f"Tensor {nm} raised {type(e).__name__} on operands with label sets {sa} / {sb}",
+                              {**desc, "error": str(e)[:150]})
+                continue
+            if fingerprint(a) != fa or fingerprint(b) != fb:
+                ctx.violation(f"mutates_operand:binop:{nm}", f"Tensor {nm} changed one of its operands (labels, stored axis order or data)",
+                              {**desc, "lhs_changed": fingerprint(a) != fa, "rhs_changed": fingerprint(b) != fb})
+            if net is not None:
+                imap2 = {k: tuple(sorted(v)) for k, v in net.ind_map.items()}
+                if fingerprint(net) != fnet or imap2 != imap:
+                    ctx.violation(f"mutates_operand_network:binop:{nm}", f"Tensor {nm} changed the network that holds its right operand", desc)
+            if nm == "matmul":
+                shared = [l for l in sa if l in sb]
+                outl = sorted((set(sa) | set(sb)) - set(shared))
+                full = np.broadcast_to(A, [sizes[l] for l in union]) * np.broadcast_to(B, [sizes[l] for l in union])
+                ref = full.sum(axis=tuple(union.index(l) for l in shared)) if shared else full
+                got_inds = tuple(sorted(r.inds)) if isinstance(r, qtn.Tensor) else ()
+                got = np.asarray(r.transpose(*got_inds).data) if isinstance(r, qtn.Tensor) and got_inds else np.asarray(r.data if isinstance(r, qtn.Tensor) else r)
+                ok = got_inds == tuple(outl) and np.allclose(got, ref)
+            else:
+                ref = {"add": A + B, "sub": A - B, "mul": A * B, "div": A / B, "pow": A ** B}[nm]
+                ref = np.broadcast_to(ref, [sizes[l] for l in union])
+                ok = (isinstance(r, qtn.Tensor) and tuple(sorted(r.inds)) == tuple(union)
+                      and np.allclose(np.asarray(r.transpose(*union).data), ref))
+            if not ok:
+                ctx.violation(f"value:binop:{nm}", f"Tensor {nm} does not broadcast by label", desc)
 
 
 def transposition_correspondence(ctx):
@@ -517,6 +668,56 @@ def transposition_correspondence(ctx):
         ctx.broken_obligation("correspondence:transpose:" + path.split("/")[-1], err)
     for c in failed[:4]:
         ctx.violation("transpose:data", "Tensor.transpose does not move the data as the labelled model requires", info[c])
+
+
+def all_subclasses(c):
+    out = [c]
+    for k in c.__subclasses__():
+        out += all_subclasses(k)
+    return out
+
+
+def unwrap(f):
+    """the function underneath partialmethod chains / functools.wraps deprecation wrappers"""
+    for _ in range(8):
+        if isinstance(f, (staticmethod, classmethod)):
+            f = f.__func__
+        elif isinstance(f, functools.partialmethod) or isinstance(f, functools.partial):
+            f = f.func
+        elif hasattr(f, "__wrapped__"):
+            f = f.__wrapped__
+        else:
+            break
+    return f
+
+
+def stale_aliases(ctx):
+    """for EVERY subclass of Tensor / TensorNetwork: the trailing-underscore attribute reached on the class must be the
+    in-place partial of the plain attribute reached on the SAME class (a subclass overriding f but inheriting f_ from
+    its base pairs two different methods)."""
+    import quimb.tensor as qtn
+
+    seen = set()
+    n = 0
+    for cls in sorted(set(all_subclasses(qtn.Tensor) + all_subclasses(qtn.TensorNetwork)), key=lambda c: c.__qualname__):
+        for name in dir(cls):
+            if not name.endswith("_") or name.startswith("_") or not hasattr(cls, name[:-1]):
+                continue
+            st = inspect.getattr_static(cls, name)
+            if not isinstance(st, functools.partialmethod):
+                continue
+            n += 1
+            base, plain = unwrap(st), unwrap(inspect.getattr_static(cls, name[:-1]))
+            ctx.count(("alias", cls.__qualname__, name), base is plain)
+            if base is not plain:
+                key = (name, getattr(base, "__qualname__", repr(base)), getattr(plain, "__qualname__", repr(plain)))
+                if key in seen:
+                    continue
+                seen.add(key)
+                ctx.violation(f"stale_alias:{key[2]}", f"{cls.__qualname__}.{name} is the in-place partial of {key[1]}, but "
+                              f"{cls.__qualname__}.{name[:-1]} is {key[2]}: the two spellings are different methods",
+                              {"class": cls.__qualname__, "inplace_attr": name, "bound_to": key[1], "plain_is": key[2]})
+    ctx.extra["alias_pairs_checked"] = n
 
 
 def inventory(ctx):
@@ -580,6 +781,7 @@ def run(ctx):
     ]
     ctx.stage(inventory)
     ctx.check_props(["Base/Sums.vo", "Base/TN.vo", "Base/TNExec.vo", "C03/Model.vo", "C03/Proofs.vo", "C03/Props.v", "Gen/C03_pairs.v"])
+    ctx.stage(stale_aliases)
     ctx.stage(transposition_correspondence)
     ctx.stage(binary_ops)
     ctx.stage(behaviour)
